@@ -96,11 +96,13 @@ Record facts := mkFacts {
   f_replace_raises_on_leftover : bool; (* _replace: `if kwds: raise ValueError` (Record and GroupedRecord) *)
   f_rewrite_exclude_wins : bool;       (* record_descriptor_for_fields: `if fname in exclude: continue` in the fields loop *)
   f_rewrite_skips_unknown : bool;      (* ... `field = descriptor.fields.get(fname); if field:` *)
-  f_rewrite_identity_when_empty : bool (* rewrite: returns the record itself without fields/exclude/expression *)
+  f_rewrite_identity_when_empty : bool; (* rewrite: returns the record itself without fields/exclude/expression *)
+  f_group_maps_to_leaf : bool          (* GroupedRecord.__init__ maps a nested group's field to the member that owns it
+                                          (rec.fieldname_to_record[fname]), not to the nested group object *)
 }.
 
 Definition std_facts : facts :=
-  mkFacts true true true true false true true true true true true true true true true true.
+  mkFacts true true true true false true true true true true true true true true true true true.
 
 Definition facts_ok (F : facts) : bool :=
   f_merge_guard_present F && f_merge_guard_not_replace F && f_merge_guard_in_map F &&
@@ -108,7 +110,7 @@ Definition facts_ok (F : facts) : bool :=
   f_init_filters_unknown F && f_ts_from_original F && f_group_first_wins F &&
   f_group_flat_excludes_reserved F && f_group_getattr_routes F && f_group_replace_reads_member F &&
   f_replace_raises_on_leftover F && f_rewrite_exclude_wins F && f_rewrite_skips_unknown F &&
-  f_rewrite_identity_when_empty F.
+  f_rewrite_identity_when_empty F && f_group_maps_to_leaf F.
 
 (* the two behaviours before the repairs 090c4ab / d74a9d7, as variants of given facts *)
 Definition unfix_expand (F : facts) : facts :=
@@ -116,13 +118,20 @@ Definition unfix_expand (F : facts) : facts :=
           (f_extend_rev_when_keep F) (f_chain_in_order F) (f_init_filters_unknown F) false (f_group_first_wins F)
           (f_group_flat_excludes_reserved F) (f_group_getattr_routes F) (f_group_replace_reads_member F)
           (f_replace_raises_on_leftover F) (f_rewrite_exclude_wins F) (f_rewrite_skips_unknown F)
-          (f_rewrite_identity_when_empty F).
+          (f_rewrite_identity_when_empty F) (f_group_maps_to_leaf F).
 Definition unfix_group_replace (F : facts) : facts :=
   mkFacts (f_merge_guard_present F) (f_merge_guard_not_replace F) (f_merge_guard_in_map F) (f_extend_rev_when_replace F)
           (f_extend_rev_when_keep F) (f_chain_in_order F) (f_init_filters_unknown F) (f_ts_from_original F)
           (f_group_first_wins F) (f_group_flat_excludes_reserved F) (f_group_getattr_routes F) false
           (f_replace_raises_on_leftover F) (f_rewrite_exclude_wins F) (f_rewrite_skips_unknown F)
-          (f_rewrite_identity_when_empty F).
+          (f_rewrite_identity_when_empty F) (f_group_maps_to_leaf F).
+(* before 9fb63bd: a nested group's fields were mapped to the nested group OBJECT *)
+Definition unfix_nested (F : facts) : facts :=
+  mkFacts (f_merge_guard_present F) (f_merge_guard_not_replace F) (f_merge_guard_in_map F) (f_extend_rev_when_replace F)
+          (f_extend_rev_when_keep F) (f_chain_in_order F) (f_init_filters_unknown F) (f_ts_from_original F)
+          (f_group_first_wins F) (f_group_flat_excludes_reserved F) (f_group_getattr_routes F)
+          (f_group_replace_reads_member F) (f_replace_raises_on_leftover F) (f_rewrite_exclude_wins F)
+          (f_rewrite_skips_unknown F) (f_rewrite_identity_when_empty F) false.
 
 (* TimestampRecord and the type iter_timestamped_records selects; GENERATED *)
 Record tsfacts := mkTs {
@@ -146,6 +155,8 @@ Variable vname : string -> V.             (* a field name as the value of a stri
 Variable dflt : string -> V.              (* typename -> value of a field that was not given *)
 Variable TS : tsfacts.
 Variable tsres : list V.                  (* reserved slots of a freshly made TimestampRecord(...) *)
+Variable GATTRS : list string.            (* names of the attributes a GroupedRecord object itself carries; GENERATED.
+                                             Only the pre-9fb63bd variant of the P-model looks at them. *)
 
 Definition fld : Type := string * (string * V).          (* name, (typename, value) *)
 Definition fname (f : fld) : string := fst f.
@@ -309,7 +320,9 @@ Definition iter_timestamped (prev : bool) (r : rec) : list rec :=
    flattened member list) of the member the attribute is finally served by.  flat_fields = its non-reserved
    entries (both are appended to in the same `if` cascade). *)
 Definition tab : Type := list (string * (string * nat)).
-Record group := mkGroup { gname : string; gmembers : list rec; gtab : tab }.
+(* gattr: keys that are served by an attribute of a nested group OBJECT instead of a member's field (always empty
+   in the clean model; non-empty only in the pre-9fb63bd variant of the P-model) *)
+Record group := mkGroup { gname : string; gmembers : list rec; gtab : tab; gattr : list string }.
 Inductive garg := ARec (r : rec) | AGrp (g : group).
 
 Definition gflat (g : group) : desc :=
@@ -329,7 +342,7 @@ Definition tab_add (off : nat) (t : tab) (e : string * (string * nat)) : tab :=
 Definition group_add (st : list rec * tab) (a : garg) : list rec * tab :=
   (fst st ++ arg_members a, fold_left (tab_add (List.length (fst st))) (arg_entries a) (snd st)).
 Definition group_make (nm : string) (args : list garg) : group :=
-  let st := fold_left group_add args ([], []) in mkGroup nm (fst st) (snd st).
+  let st := fold_left group_add args ([], []) in mkGroup nm (fst st) (snd st) [].
 
 Definition group_get (g : group) (k : string) : option V :=
   match assoc k (gtab g) with
@@ -344,7 +357,7 @@ Definition group_view (g : group) : rec :=
 
 Definition group_set (g : group) (k : string) (v : V) : group :=
   match assoc k (gtab g) with
-  | Some ti => mkGroup (gname g) (upd_nth (snd ti) (fun m => rec_set m k v) (gmembers g)) (gtab g)
+  | Some ti => mkGroup (gname g) (upd_nth (snd ti) (fun m => rec_set m k v) (gmembers g)) (gtab g) (gattr g)
   | None => g
   end.
 
@@ -484,10 +497,23 @@ Definition p_tab_add (off : nat) (t : tab) (e : string * (string * nat)) : tab :
   else t ++ [(fst e, (fst (snd e), off + snd (snd e)))].
 Definition p_group_add (st : list rec * tab) (a : garg) : list rec * tab :=
   (fst st ++ arg_members a, fold_left (p_tab_add (List.length (fst st))) (p_arg_entries a) (snd st)).
+(* with the old mapping, getattr(nested_group, k) for a key k that is an attribute of the nested group object (or that the
+   nested group itself serves that way) yields that attribute, not a member's value *)
+Fixpoint p_shadowed_go (seen : list string) (args : list garg) : list string :=
+  match args with
+  | [] => []
+  | ARec r :: t => p_shadowed_go (seen ++ slots_of r) t
+  | AGrp g :: t =>
+      let ks := keys (p_gflat g) ++ res_names in
+      filter (fun k => negb (mem k seen) && (mem k GATTRS || mem k (gattr g))) ks ++ p_shadowed_go (seen ++ ks) t
+  end.
+Definition p_shadowed (args : list garg) : list string :=
+  if f_group_maps_to_leaf F then [] else p_shadowed_go [] args.
 Definition p_group_make (nm : string) (args : list garg) : group :=
-  let st := fold_left p_group_add args ([], []) in mkGroup nm (fst st) (snd st).
+  let st := fold_left p_group_add args ([], []) in mkGroup nm (fst st) (snd st) (p_shadowed args).
 Definition p_group_get (g : group) (k : string) : option V :=
-  if f_group_getattr_routes F then group_get g k
+  if negb (f_group_maps_to_leaf F) && mem k (gattr g) then None
+  else if f_group_getattr_routes F then group_get g k
   else match rev (gmembers g) with m :: _ => rec_get m k | [] => None end.
 Definition p_group_view (g : group) : rec :=
   mkRec (gname g)
